@@ -19,6 +19,7 @@
 -/
 import MitmVerif.Basic.Bytes
 import MitmVerif.Gen.C13
+import MitmVerif.Model.C22
 namespace MitmVerif.C13
 
 inductive Res (α : Type) where
@@ -320,6 +321,36 @@ def validHost (lib : HostLib) (nm : Bytes) : Bool :=
   else
     let hb := stripDot nm
     if (splitDot hb).all labelValid then true else lib.ip hb
+
+/-! ### the two `HostLib` answers, transcribed as far as mitmproxy-independent CPython code allows
+
+`ipaddress.ip_address` is the transcription `C22.parseIp` (CPython 3.12 `IPv4Address`/`IPv6Address` string parsers,
+tied by C22's own differential run); what remains a parameter is `bytes.decode("idna")` on inputs that contain
+`b"xn--"` — the punycode/nameprep slow path — now returning the decoded TEXT (UTF-8), because the ip path parses it. -/
+
+structure IdnaLib where
+  /-- `raw.decode("idna")` as UTF-8 bytes for a `raw` containing `b"xn--"`; `none` = UnicodeError -/
+  idna : Bytes → Option Bytes
+
+/-- `raw.decode("idna")`: empty / no `xn--` → the ASCII fast path (and the slow path fails on the same non-ASCII label) -/
+def idnaText (I : IdnaLib) (raw : Bytes) : Option Bytes :=
+  if isInfix acePrefix raw then I.idna raw
+  else if raw.all (fun b => b.toNat < 128) then some raw else none
+
+/-- `ipaddress.ip_address(host_bytes.decode("idna"))` succeeds -/
+def ipOk (I : IdnaLib) (hb : Bytes) : Bool :=
+  match idnaText I hb with
+  | some t => (C22.parseIp t).isSome
+  | none => false
+
+/-- the old two-answer library, with both answers computed -/
+def hostLibOf (I : IdnaLib) : HostLib := ⟨fun nm => (I.idna nm).isSome, ipOk I⟩
+
+/-- `is_valid_host(host: bytes)` with `ipaddress` inside the model -/
+def validHostT (I : IdnaLib) (nm : Bytes) : Bool := validHost (hostLibOf I) nm
+
+/-- an `IdnaLib` that fails on everything: for names without `xn--` it is never asked -/
+def noIdna : IdnaLib := ⟨fun _ => none⟩
 
 /-! ## accessors of `mitmproxy.tls.ClientHello` -/
 
